@@ -132,6 +132,59 @@ func (e c19Export) raw(c *chain.Chain) map[string]json.RawMessage {
 	}
 }
 
+// c19PointKeys lists, from the store listings of a state, the records the point queries below are asked about.
+type c19PointKeys struct {
+	Feeds     []string
+	Names     []string
+	Files     [][2]string // filetree (address, owner)
+	Providers []string
+}
+
+func c19Keys(c *chain.Chain, ctx sdk.Context) (k c19PointKeys) {
+	for _, f := range c.App.OracleKeeper.GetAllFeeds(ctx) {
+		k.Feeds = append(k.Feeds, f.Name)
+	}
+	for _, n := range c.App.RnsKeeper.GetAllNames(ctx) {
+		k.Names = append(k.Names, n.Name+"."+n.Tld)
+	}
+	for _, f := range c.App.FileTreeKeeper.GetAllFiles(ctx) {
+		k.Files = append(k.Files, [2]string{f.Address, f.Owner})
+	}
+	for _, p := range c.App.StorageKeeper.GetAllProviders(ctx) {
+		k.Providers = append(k.Providers, p.Address)
+	}
+	return
+}
+
+// c19PointQueries asks the modules' own single-record queries (what a client reads) about the given records.
+func c19PointQueries(c *chain.Chain, ctx sdk.Context, k c19PointKeys) map[string]string {
+	out := map[string]string{}
+	g := sdk.WrapSDKContext(ctx)
+	show := func(v interface{}, err error) string {
+		if err != nil {
+			return "error"
+		}
+		return fmt.Sprintf("%v", v)
+	}
+	for _, n := range k.Feeds {
+		r, err := c.App.OracleKeeper.Feed(g, &oracletypes.QueryFeed{Name: n})
+		out["oracle/Feed/"+n] = show(r, err)
+	}
+	for _, n := range k.Names {
+		r, err := c.App.RnsKeeper.Name(g, &rnstypes.QueryName{Name: n})
+		out["rns/Name/"+n] = show(r, err)
+	}
+	for _, f := range k.Files {
+		r, err := c.App.FileTreeKeeper.File(g, &fttypes.QueryFile{Address: f[0], OwnerAddress: f[1]})
+		out["filetree/File/"+f[0]+"/"+f[1]] = show(r, err)
+	}
+	for _, p := range k.Providers {
+		r, err := c.App.StorageKeeper.Provider(g, &storagetypes.QueryProvider{Address: p})
+		out["storage/Provider/"+p] = show(r, err)
+	}
+	return out
+}
+
 type c19Result struct {
 	failures map[string]string // signature -> description (one per store:prefix)
 	prefixes map[string]bool   // populated store:prefix in the source
@@ -141,6 +194,8 @@ type c19Result struct {
 // c19RoundTrip exports the six modules from (c, ctx), imports them into a fresh app and compares.
 func c19RoundTrip(c *chain.Chain, ctx sdk.Context) (res c19Result) {
 	res.failures, res.prefixes = map[string]string{}, map[string]bool{}
+	keys := c19Keys(c, ctx)
+	srcQ := c19PointQueries(c, ctx, keys)
 	exp := c19DoExport(c, ctx)
 	if err := exp.validate(); err != nil {
 		res.other = "exported genesis does not validate: " + err.Error()
@@ -163,6 +218,17 @@ func c19RoundTrip(c *chain.Chain, ctx sdk.Context) (res c19Result) {
 	}
 	defer restored.Close()
 	rctx := restored.BaseCtx(1, chain.GenesisTime)
+	// every record readable through the modules' single-record queries before the export reads the same afterwards
+	dstQ := c19PointQueries(restored, rctx, keys)
+	for _, q := range sortedKeysOf(srcQ) {
+		if srcQ[q] != dstQ[q] {
+			mod := strings.SplitN(q, "/", 3)
+			sig := "C19/query-roundtrip/" + mod[0] + "/" + mod[1]
+			if _, seen := res.failures[sig]; !seen {
+				res.failures[sig] = fmt.Sprintf("query %s answers %s before the export and %s after the import", trunc(q, 80), trunc(srcQ[q], 160), trunc(dstQ[q], 160))
+			}
+		}
+	}
 	// KV comparison per store / prefix
 	for _, st := range c19Stores {
 		src := map[string][]byte{}
@@ -386,6 +452,23 @@ func TestC19(t *testing.T) {
 			fillMsg(rt, m, env(), nil)
 			res := w.f.Exec(m)
 			w.logf("%s -> %s", msgSummary(m), trunc(res.String(), 60))
+			if rapid.IntRange(0, 9).Draw(rt, "rolledBack") == 0 {
+				// one transaction whose last message fails: an owner's update of its feed / name / provider record is discarded
+				a := accs[rapid.IntRange(0, 2).Draw(rt, "batchOwner")]
+				var first sdk.Msg
+				switch rapid.IntRange(0, 2).Draw(rt, "batchKind") {
+				case 0:
+					first = &oracletypes.MsgUpdateFeed{Creator: a.Bech, Name: fmt.Sprintf("feed%d", a.Index), Data: `{"price":"9999"}`}
+				case 1:
+					first = rnstypes.NewMsgUpdate(a.Bech, fmt.Sprintf("owner%d.jkl", a.Index), `{"rolled":"back"}`)
+				default:
+					first = storagetypes.NewMsgSetProviderKeybase(a.Bech, "rolled-back")
+				}
+				failing := rnstypes.NewMsgTransfer(a.Bech, "no-such-name-at-all.jkl", accs[3].Bech)
+				res := w.f.ExecAtomic(first, failing)
+				w.logf("one transaction: %s, then a message that fails -> %s", msgSummary(first), trunc(res.String(), 60))
+				rec.Count("fork-world:rolled-back-transactions")
+			}
 			if rapid.IntRange(0, 9).Draw(rt, "governance") == 0 {
 				// a parameter-change proposal: any value the per-key validators of the parameter store accept (they are what a
 				// proposal is checked against); the exported genesis of such a state must still validate and round-trip
